@@ -136,7 +136,7 @@ func qstressCase(s *Sexp) string {
 		if err != nil {
 			return "bad-config"
 		}
-		ctx, cancel := context.WithTimeout(context.Background(), 60*time.Second)
+		ctx, cancel := context.WithTimeout(context.Background(), 10*time.Minute) // only ends a hang; never an oracle
 		defer cancel()
 		total := prod * n
 		var got, failed, over atomic.Int64
